@@ -7,7 +7,7 @@ RUN_MODULE = "RunC08"
 DRIVER = "equalizer_sim.py"
 SHARD = 400
 RULE = ("one case = one comparison run of the real Equalizer over a script (sequence of recording ids, each with one of "
-        "21 behaviour texts: 9 verdict-level, 9 process-level + 3 in the F08 probe streams) in dedicated (simulated multiprocessing) or in-process "
+        "23 behaviour texts: 9 verdict-level, 9 process-level, 2 answer-level (the parent cannot load the answer / the worker answers (False, message)) + 3 in the F08 probe streams) in dedicated (simulated multiprocessing) or in-process "
         "mode, recycle rate, timeout, keep-results on/off, consumed fully / closed after n / consumer raising after n / "
         "id source raising after n; each case also plays every recording alone and the whole script in the other mode; "
         "non-trivial = at least two recordings and at least one behaviour other than 'equal'; distinct = distinct case")
@@ -16,15 +16,16 @@ ASSUMPTIONS = ["scheduling of parent and worker is the one implemented by harnes
                "the parent blocks; a late answer lands at the moment of the kill); other interleavings of real "
                "multiprocessing are not covered by the theorems",
                "os.kill(SIGKILL) succeeds",
-               "results cross the process boundary unchanged (pickling is not modelled; an unpicklable result is the "
-               "behaviour 'drops')",
+               "results cross the process boundary unchanged or not at all (pickling is not modelled: a result that "
+               "does not pickle in the worker is the behaviour 'drops', one that does not unpickle in the parent is "
+               "'unloadable')",
                "closing / dropping a suspended generator runs its finally block (Python semantics) - abandonment "
                "after n yields is modelled as the run over the first n recordings"]
 TRUSTED = ["fake multiprocessing / clock / kill (harness/impl/fake_mp.py) under the real Equalizer",
            "real-process scripts (thorough tier) are checked by the direct predicate only"]
 
-MAIN = G.VERDICT_BEH + G.PROCESS_BEH
-W_MAIN = [30, 8, 6, 6, 6, 3, 2, 1, 1] + [5, 5, 6, 3, 2, 3, 3, 2, 2]
+MAIN = G.VERDICT_BEH + G.PROCESS_BEH + G.ANSWER_BEH
+W_MAIN = [30, 8, 6, 6, 6, 3, 2, 1, 1] + [5, 5, 6, 3, 2, 3, 3, 2, 2] + [5, 3]
 
 
 def generate(rng, tier):
@@ -37,7 +38,7 @@ def generate(rng, tier):
                           consume=G.rand_consume(rng, len(ids))))
     # every behaviour at every position of a short run, all small rates
     alpha3 = ["equal", "different", "player_raises", "extractor_raises", "comparator_raises", "bare:Fixed",
-              "exit0", "exit1", "hang", "hang_deaf", "slow:2", "slow:4"]
+              "exit0", "exit1", "hang", "hang_deaf", "slow:2", "slow:4", "unloadable", "put_raises"]
     alpha4 = ["equal", "extractor_raises", "exit0", "hang", "slow:3", "player_raises"]
     if tier == "quick":
         for ids, behs in G.exhaustive(alpha3, 2):
@@ -135,8 +136,7 @@ def direct(case, obs):
         if exp is not None and c[1] != exp:
             fails.append((sig("wrong-status"), "comparison #%d of r%s (%s): status %s, expected %s" % (k, i, b, c[1], exp)))
     # in-process and dedicated-process execution give the same verdicts
-    neutral = all(G.expected_status(G.beh_of(case, i), True, T) is not None and not G.fatal_dedicated(G.beh_of(case, i), T)
-                  for i in ids)
+    neutral = all(G.mode_neutral(G.beh_of(case, i), T) for i in ids)
     if neutral and case.get("consume", ["full"])[0] == "full" and obs["other_mode"][0] != cmps:
         fails.append(("modes-disagree", "dedicated and in-process runs differ: %s vs %s" % (cmps, obs["other_mode"][0])))
     return fails
